@@ -48,15 +48,27 @@ class FileSystemArtifactStore(SerializedArtifactStore):
         return path
 
     def _get_glob(self, node_id: NodeId) -> t.List[Path]:
-        return list(Path(self._ensure_dir()).glob(f'{node_id}.*'))
+        # The node id is a part of the key, not a pattern: only exact file names are looked up
+        directory = self._ensure_dir()
+        return [path for path in (directory / f'{node_id}.{fmt.value}' for fmt in DataFormat) if path.exists()]
 
     @dont_use_for_prod
     async def save(self, node_id: NodeId, data: NodeResultT, fmt: DataFormat = DataFormat.PICKLE) -> None:
         if len(self._get_glob(node_id)):
             raise ArtifactFileAlreadyExists(f'Artifact file for {node_id} already exists')
 
-        with Path(self._ensure_dir() / f'{node_id}.{fmt.value}').open('wb') as file:  # noqa: ASYNC101
-            serializer_factory.from_data_format(fmt).dump(data, file)
+        path = Path(self._ensure_dir() / f'{node_id}.{fmt.value}')
+
+        try:
+            open_kwargs = dict(mode='wb') if fmt == DataFormat.PICKLE else dict(mode='w', encoding='utf-8')
+
+            with path.open(**open_kwargs) as file:  # noqa: ASYNC101
+                serializer_factory.from_data_format(fmt).dump(data, file)
+
+        except BaseException:
+            # A failed save must not leave the artifact behind
+            path.unlink(missing_ok=True)
+            raise
 
     @dont_use_for_prod
     async def load(self, node_id: NodeId) -> NodeResultT:
